@@ -164,7 +164,7 @@ def check_snapshot_before_update(ctx, model):
     if v is None:
         return
     found = False
-    for q in [x for x in model.fnsrc if x.startswith(EXPAND + "::{closure")]:
+    for q in model.closures_of(EXPAND):
         cv = model.view(q)
         snaps = []
         for b, i, s_ in cv.iter_stmts():
@@ -285,6 +285,22 @@ def check_sibling(ctx, model):
                     guarded = True
             ctx.ob("C13-W3", "%s|emission-recorded-once" % v.path, guarded,
                    "emitted_tokens.insert(epoch, ..) happens only when the map has no entry for that epoch: %s" % guarded, v.where(ib))
+    # what claim changes in a flow (the recorded cumulative emission, the claimed amount) is written back: no successful
+    # return is reachable from such an update without passing FLOWS.save
+    saves = [sb for sb, _ in storage_calls(a, "incentive::state::FLOWS", ("save",))]
+    muts = [ib for ib, it in a.calls_to(r"^std::collections::(HashMap|BTreeMap)::insert$")]
+    for b_, i_, s_ in a.iter_stmts():
+        F = a._named_fields(s_["lhs"]["p"])
+        if F and F[-1] == "claimed_amount":
+            muts.append(b_)
+    oks_a = set(ok_value_blocks(a))
+    if not saves or not muts or not oks_a:
+        ctx.missing("C13-W3", "FLOWS.save / flow updates / Ok return in claim")
+    else:
+        lost = sorted(mb for mb in set(muts) if a.reachable(mb, cut_blocks=saves) & oks_a)
+        ctx.ob("C13-W3", "%s|flow-updates-are-saved" % CLAIM, not lost,
+               "a successful return is reachable from a flow update (emitted_tokens / claimed_amount) without FLOWS.save: %s" % (["bb%d" % x for x in lost] or "no"),
+               a.where(lost[0]) if lost else a.where(saves[0]))
     # the cap: the loop body is entered for the first EPOCH_CLAIM_CAP epochs of a call and not for the next one
     from ..dataflow import single_var_guard, single_var_walk
     is_counter = lambda os_: bool(os_) and any(o.kind == "arith" for o in os_) and all(o.kind in ("arith", "const") for o in os_)
